@@ -17,7 +17,7 @@ func HarnessC16Store() {
 	vsymTag("pair", a+"+"+b)
 	vsymTag("store", "example")
 	vsymSchedBound(vsymParamInt("preempt", 2))
-	vsymSchedKinds("syncmap,go")
+	vsymSchedKinds("syncmap,go,sharedwrite")
 	vsymUnwind(400)
 	s := NewServer()
 	db, _ := s.GetDatabase(0)
